@@ -22,12 +22,16 @@ import (
 )
 
 type simDialer struct {
-	conn  *simnet.Conn
-	dials int
+	conn   *simnet.Conn
+	dials  int
+	onDial func() // runs just before the connection is handed to the library
 }
 
 func (d *simDialer) DialContext(ctx context.Context, network, address string) (net.Conn, error) {
 	d.dials++
+	if d.onDial != nil {
+		d.onDial()
+	}
 	return d.conn, nil
 }
 
@@ -60,6 +64,15 @@ func drawExceptionChain(rt *rapid.T, maxDepth int) []ref.Exception {
 			Message: rapid.SampledFrom([]string{"DB::Exception: Table x doesn't exist", "boom", "", "DB::NetException: \xff\xfe broken pipe"}).Draw(rt, "emsg"),
 			Stack:   rapid.SampledFrom([]string{"", "0. main()\n1. start()"}).Draw(rt, "estack"),
 		})
+	}
+	// Rarely a text longer than any read buffer (servers do send stack traces and messages of any length).
+	if rapid.IntRange(0, 15).Draw(rt, "very-long-exception-text") == 0 {
+		long := strings.Repeat("#7 DB::executeQuery(...) @ 0x0000000012345678\n", rapid.SampledFrom([]int{2900, 2915, 5000}).Draw(rt, "stack-lines"))
+		if rapid.Bool().Draw(rt, "in-message") {
+			out[len(out)-1].Message = long[:rapid.SampledFrom([]int{131071, 131072, 131073, len(long)}).Draw(rt, "message-bytes")]
+		} else {
+			out[0].Stack = long
+		}
 	}
 	return out
 }
